@@ -9,6 +9,10 @@
 //!   xcheck [--seed N] [--cases K] [--out report.json]
 
 mod ffi;
+/// The XML well-formedness checker that decides C27 (shared source with the zg engine; it depends on nothing).
+#[path = "../../../engines/zg/src/xmlcheck.rs"]
+#[allow(dead_code)]
+mod xmlcheck;
 
 use ffi::{DBus, GLib};
 use serde_json::{json, Value as J};
@@ -1003,6 +1007,22 @@ fn probe_rule(rule: &str, candidates: &[String]) {
 
 fn main() {
     let args: Vec<String> = std::env::args().collect();
+    if let Some(i) = args.iter().position(|a| a == "--xml-verdicts") {
+        // documents separated by NUL bytes in the file; one line per document: "1" well-formed, "0 <reason>" otherwise
+        let data = std::fs::read(&args[i + 1]).expect("read");
+        let mut out = String::new();
+        for doc in data.split(|b| *b == 0) {
+            match std::str::from_utf8(doc) {
+                Err(_) => out.push_str("0 not UTF-8\n"),
+                Ok(t) => match xmlcheck::parse_document(t) {
+                    Ok(_) => out.push_str("1\n"),
+                    Err(e) => out.push_str(&format!("0 {}\n", e.replace('\n', " "))),
+                },
+            }
+        }
+        print!("{out}");
+        return;
+    }
     if let Some(i) = args.iter().position(|a| a == "--probe-rule") {
         probe_rule(&args[i + 1], &args[i + 2..]);
         return;
